@@ -192,13 +192,24 @@ def gen_case(rng, thorough=False):
                 p = p + b'y' * (n - len(p))
             elif kind < 0.17 and n >= 3:
                 p = b'y' * (n // 2) + b'\n' + b'z' * (n - n // 2 - 1)         # a message that contains a newline
+            elif kind < 0.27 and n >= 1:
+                # a message whose LAST byte is a newline (n = 1: a lone newline): the record still gets its own terminator
+                p = (b'n%d.' % len([o for o in ops if o[0] == 'w']) + b'y' * n)[:n - 1] + b'\n'
             else:
                 tag = b'r%d.' % len([o for o in ops if o[0] == 'w'])
                 p = (tag + b'y' * n)[:n]
             # the QtMsgType of the record (0 debug 1 warning 2 critical 3 fatal 4 info): the sink must not look at it; the
             # third field is only present when the type is not info (older corpus cases have two fields)
             ty = rng.choice(MTYPES) if rng.random() < 0.3 else 4
-            ops.append(('w', p) if ty == 4 else ('w', p, ty))
+            # the formatted / raw distinction of LogMessage (fourth field = the raw text of a message whose FORMATTED text
+            # - the second field, possibly empty-but-set - is what is shown; absent: no formatted text, the raw text is shown)
+            fr = rng.random()
+            if fr < 0.07:
+                ops.append(('w', b'', ty, p if p else b'raw text, not shown'))      # formatted text "" (set, not null) over a non-empty raw text
+            elif fr < 0.12:
+                ops.append(('w', p, ty, rng.choice([b'', b'RAW-TEXT-NOT-SHOWN', p + b'x', p[:-1]])))
+            else:
+                ops.append(('w', p) if ty == 4 else ('w', p, ty))
         elif x < 0.82:
             dt = rng.choice([0, 1, 5, 999, 1000, 1001, DAY, DAY, 2 * DAY, 3 * DAY, DAY - 1,
                              DAY - t % DAY, DAY - t % DAY - 1, DAY - (t + off) % DAY, DAY - (t + off) % DAY - 1, 30 * DAY]
@@ -229,13 +240,22 @@ def seed_content(case, k, name):
 def lines_of(case, for_impl):
     ls = ['case %d %d %d %d %s %s %d %d %s %d' % (case['L'], case['N'], case['opts'], case['gran'], hx(case['base']),
                                                   hx(case['suffix']), case['t0'], case.get('tz', 0), case.get('codec') or '-',
-                                                  1 if case.get('quiet') else 0)]
+                                                  1 if case.get('quiet') else 0)
+          + (' ' + hx(case['tzname'].encode()) if case.get('tzname') else '')]
     k = 0
     for o in case['ops']:
         if o[0] in ('w', 'w2'):
-            ls.append(o[0] + ' ' + hx(o[1]) + (' %d' % o[2] if len(o) > 2 else ''))
+            if len(o) > 3:          # long form: raw text, type, formatted-text mode, formatted text, age of the message object
+                raw = o[3]
+                age = o[4] if len(o) > 4 else 0
+                ls.append('%s %s %d %d %s' % (o[0], hx(o[1] if raw is None else raw), o[2], 0 if raw is None else 1,
+                                             '-' if raw is None else hx(o[1])) + (' %d' % age if age and for_impl else ''))
+            else:
+                ls.append(o[0] + ' ' + hx(o[1]) + (' %d' % o[2] if len(o) > 2 else ''))
         elif o[0] == 'wo':
-            ls.append('wo %s %s' % (hx(o[1]), hx(o[2])) + (' %d' % o[3] if len(o) > 3 else ''))
+            ls.append('wo %s %s' % (hx(o[1]), hx(o[2])) + (' %d' % o[3] if len(o) > 3 else '') + (' %d' % o[4] if len(o) > 4 else ''))
+        elif o[0] == 'mkdir':
+            ls.append('mkdir %s' % hx(o[1]))
         elif o[0] == 'sparse':
             ls.append('sparse %d' % o[1])
         elif o[0] == 'end':
@@ -519,7 +539,11 @@ def show_op(o):
         return 'construct'
     if o[0] in ('w', 'w2'):
         return '%s %r' % (o[0], o[1][:40]) + ('...(%d bytes)' % len(o[1]) if len(o[1]) > 40 else '') + \
-            (' type=%s' % MTYPE_NAME.get(o[2], o[2]) if len(o) > 2 else '')
+            (' type=%s' % MTYPE_NAME.get(o[2], o[2]) if len(o) > 2 else '') + \
+            (' (= the FORMATTED text, set%s; raw message text %r)' % (' but empty' if not o[1] else '', o[3][:40]) if len(o) > 3 and o[3] is not None else '') + \
+            (' (message object constructed %d ms before it is sent)' % o[4] if len(o) > 4 and o[4] else '')
+    if o[0] == 'mkdir':
+        return 'somebody creates the sub-directory %r' % (o[1],)
     if o[0] == 'wo':
         return 'write through another sink on %r: %r' % (o[1], o[2][:40])
     if o[0] == 'put':
@@ -975,6 +999,7 @@ def run_check(pid):
         return h
     bnd, kinds, cross, ticks, jumps, predated, tzdiff = {}, {}, {'9->10': 0, '99->100': 0}, 0, 0, 0, 0
     mtypes, fatal_at_limit = {}, 0
+    shape_h = {'ends_in_newline': 0, 'lone_newline': 0, 'empty': 0, 'formatted_empty_over_raw': 0, 'formatted_other_than_raw': 0}
     for c, (ol, infos) in zip(cases, olines):
         last_rot_t, t = None, c['t0']
         for k, o in enumerate(c['ops']):
@@ -982,6 +1007,9 @@ def run_check(pid):
             if o[0] == 'w' and (t + c.get('tz', 0) * 60000) // DAY != t // DAY:
                 tzdiff += 1
             if o[0] == 'w':
+                shape_h['ends_in_newline'] += o[1].endswith(b'\n'); shape_h['lone_newline'] += o[1] == b'\n'; shape_h['empty'] += o[1] == b''
+                if len(o) > 3 and o[3] is not None:
+                    shape_h['formatted_empty_over_raw' if not o[1] else 'formatted_other_than_raw'] += 1
                 ty = MTYPE_NAME[o[2] if len(o) > 2 else 4]
                 mtypes[ty] = mtypes.get(ty, 0) + 1
                 if ty == 'fatal' and infos and k + 1 < len(infos) and infos[k + 1]['new_rot']:
@@ -1024,7 +1052,7 @@ def run_check(pid):
         'quiet_cases_looked_at_only_at_the_end': sum(1 for c in cases if c.get('quiet')),
         'writes_while_local_date_differs_from_utc_date': tzdiff, 'file_name_histogram': hist(lambda c: Names(c['base'], c['suffix']).active.decode()),
         'seeded_cases': sum(1 for c in cases if any(o[0] == 'seed' for o in c['ops'])),
-        'message_type_histogram': mtypes, 'fatal_records_that_rotated': fatal_at_limit,
+        'payload_shape_histogram': shape_h, 'message_type_histogram': mtypes, 'fatal_records_that_rotated': fatal_at_limit,
         'op_kind_histogram': kinds, 'record_length_minus_L_hits': bnd, 'index_crossings': cross,
         'rotations_within_the_same_coarse_tick': ticks, 'day_jumps': jumps, 'restarts_with_predated_active_file': predated,
         'run_wall_s': round(t_run, 1)})
